@@ -311,7 +311,7 @@ def model_report(c, rng, n):
         else:
             c.problem("proof", "Parse_valid_report", f"driver pvalid answers `{m[:200]}` (premise true, conclusion false contradicts Parse_valid_report_sound)", case)
     c.cov["spec_checks"]["model trees (parse_document_model): premise bcells_ok of Parse_valid_partial2 holds and Spec.Valid.structurally_valid holds (driver op pvalid)"] = len(jobs)
-    c.cov.setdefault("search", {})["pvalid_answers"] = tally
+    c.cov["model_report"] = {"cases": len(jobs), "answers": tally, "expected": "ok 1 1 (premise bcells_ok, structurally_valid)"}
 
 
 # ----------------------------------------------------------------------------- main
